@@ -302,7 +302,7 @@ theorem pread_zeros (n o m : Nat) (h : o + m ≤ n) : pread (zeros n) o m = zero
 
 theorem pread_append_of_le (a b : Bytes) (off len : Nat) (h : a.length ≤ off) :
     pread (a ++ b) off len = pread b (off - a.length) len := by
-  simp [pread, List.drop_append_of_le_length h, List.drop_eq_nil_of_le h]
+  simp only [pread, List.drop_append, List.drop_eq_nil_of_le h, List.nil_append]
 
 theorem pread_append_prefix (a b : Bytes) (len : Nat) (h : len = a.length) :
     pread (a ++ b) 0 len = a := by
